@@ -329,15 +329,15 @@ def plan(tier, seed, jobs):
             specs.append({"kind": "apiholds", "seed": seed, "j": j, "of": 3, "budget_s": 60})
     else:
         for j in range(jobs * 3):
-            specs.append({"kind": "hostile", "n": 5000, "seed": seed, "j": j, "budget_s": 600, "observer": "inotify"})
+            specs.append({"kind": "hostile", "n": 5000, "seed": seed, "j": j, "budget_s": 150, "observer": "inotify"})
         for j in range(jobs):
-            specs.append({"kind": "hostile", "n": 3000, "seed": seed, "j": 100 + j, "budget_s": 600, "observer": "polling"})
+            specs.append({"kind": "hostile", "n": 3000, "seed": seed, "j": 100 + j, "budget_s": 150, "observer": "polling"})
         for j in range(jobs):
-            specs.append({"kind": "faults", "n": 4000, "seed": seed, "j": j, "budget_s": 600})
+            specs.append({"kind": "faults", "n": 4000, "seed": seed, "j": j, "budget_s": 150})
         for j in range(4):
             specs.append({"kind": "selfstop", "reps": 10, "seed": seed + j, "budget_s": 600})
         for j in range(jobs):
-            specs.append({"kind": "apiholds", "seed": seed, "j": j, "of": jobs, "budget_s": 900, "reps": 8})
+            specs.append({"kind": "apiholds", "seed": seed, "j": j, "of": jobs, "budget_s": 250, "reps": 8})
         specs.append({"kind": "arrival", "errnos": [errno.ENOENT, errno.ENOSPC, errno.EACCES], "seed": seed, "budget_s": 600})
     return specs
 
